@@ -51,7 +51,10 @@ func (vc *VC) mapGet(st *State, m Val, k Val, mt *types.Map) (Term, Val) {
 	dom := vc.heapGet(st, vc.mapDomArrName(m.Typ), ArrSort(SInt, ArrSort(ks, SBool)))
 	ok := And(Ne(m.T, IntLit(0)), Select(Select(dom, m.T), kt))
 	et := mt.Elem()
-	if _, isStruct := structOf(et); isStruct {
+	if sst, isStruct := structOf(et); isStruct {
+		if sst.NumFields() == 0 {
+			return ok, Val{K: KStruct, Typ: et} // set-like map: struct{} carries nothing
+		}
 		vc.unsupported("map with struct values")
 		return ok, vc.freshVal(et, "mapval")
 	}
@@ -71,8 +74,10 @@ func (vc *VC) mapSet(st *State, m Val, k Val, v Val, mt *types.Map) {
 	dom := vc.heapGet(st, dn, ArrSort(SInt, ArrSort(ks, SBool)))
 	vc.heapSet(st, dn, vc.nameTerm(Store(dom, m.T, Store(Select(dom, m.T), kt, True)), smtName(dn)))
 	et := mt.Elem()
-	if _, isStruct := structOf(et); isStruct {
-		vc.unsupported("map with struct values")
+	if sst, isStruct := structOf(et); isStruct {
+		if sst.NumFields() != 0 {
+			vc.unsupported("map with struct values")
+		}
 		return
 	}
 	for _, l := range leavesOf(et) {
